@@ -75,6 +75,30 @@ def finding_for(pid, ob, findings):
     return None
 
 
+def bounded_refutation(ctx, plan, pid, q, axioms_plain=()):
+    """bounded stand-in used only to look for a failing input (never counted as proof)"""
+    rep0 = ctx.reports[q]
+    names = [str(s_) for s_ in smt.size_symbols(rep0.leaves)]
+    if not names:
+        return None
+    for n in (2, 3):
+        try:
+            rep = spec.verify_function(ctx.repo, ctx.registry, q, fixed={nm: n for nm in names}, max_paths=60)
+        except Exception:      # noqa
+            return None
+        obs = [ob for ob in rep.obligations if ob.kind in ("postcondition", "exceptional-postcondition")]
+        if not obs or rep.unsupported:
+            continue
+        smt.discharge(obs, extra_axioms=(list(axioms_plain), []), leaves=rep.leaves)
+        for ob in obs:
+            if ob.verdict in ("refuted", "candidate"):
+                ob.name = ob.name + "[sizes=%d]" % n
+                path, reproduced, out = replay.write_and_run(pid, ob, plan, ctx)
+                if reproduced:
+                    return path, ob
+    return None
+
+
 def run(pid, tier, seed, do_replay=None):
     t0 = time.time()
     ctx = Ctx(pid, tier, seed)
@@ -236,6 +260,25 @@ def run(pid, tier, seed, do_replay=None):
     # property-level native oracle on small concrete systems; a failing input found there is a real violation
     doubtful = [ob for ob in all_obs if ob.verdict in ("undecided", "candidate")
                 or (ob.verdict == "refuted" and getattr(ob, "_not_reproduced", False))]
+    # bounded refutation search: obligations of a function that are refuted/undecided without a native failing input
+    # -> re-run the function with every size symbol fixed to 2, 3 (loops unrolled, all values symbolic); a refuted
+    # postcondition there comes with real inputs that are replayed on the real function
+    if doubtful:
+        fns = []
+        for ob in doubtful:
+            q = (ob.meta or {}).get("function")
+            if q and q in ctx.reports and q not in fns:
+                fns.append(q)
+        for q in fns[:4]:
+            hit = bounded_refutation(ctx, plan, pid, q, axioms_plain=list(plan.extra_axioms))
+            if hit is not None:
+                path, ob_b = hit
+                names = set(o.name for o in doubtful if (o.meta or {}).get("function") == q)
+                status["undecided"] = [u for u in status["undecided"] if not any(u.startswith(n) for n in names)]
+                lines = [ln for ln in lines if not any(("obligation=" + n) in ln for n in names)]
+                lines.append("VIOLATION property=%s replay=%s obligation=%s" % (pid, path, sorted(names)[0]))
+                n_viol = sum(1 for ln in lines if ln.startswith("VIOLATION"))
+                doubtful = [o for o in doubtful if (o.meta or {}).get("function") != q]
     unsupported_fns = [q for q, rep in ctx.reports.items() if rep.unsupported]
     if not doubtful and unsupported_fns and plan.oracles:
         # code the executor cannot follow any more (construct outside the modelled subset): undecided by proof; the
